@@ -176,9 +176,9 @@ func Flatten(v Value) (toks []string, bag bool, ok bool) {
 			} else if v.Approx {
 				ok = false
 			} else if v.IsInt {
-				toks = append(toks, fmt.Sprintf("#%d", v.I))
+				toks = append(toks, fmt.Sprintf("#i%d", v.I))
 			} else {
-				toks = append(toks, fmt.Sprintf("#%x", math.Float64bits(v.N)))
+				toks = append(toks, fmt.Sprintf("#f%x", math.Float64bits(v.N)))
 			}
 		case KStr:
 			if v.Fuzzy || v.S == "" || strings.ContainsAny(v.S, " \t\n[]{}(),:") {
